@@ -12,6 +12,9 @@ import traceback
 
 VERIF = os.path.dirname(os.path.dirname(os.path.abspath(__file__)))
 KNOWN_FILE = os.path.join(VERIF, "known_findings.json")
+# evidence/ and replays/ go to /verif unless VERIF_OUT redirects them (used only when a seeded change is
+# evaluated against a scratch worktree, so that such runs never overwrite evidence of the real tree)
+OUT = os.environ.get("VERIF_OUT", VERIF)
 
 
 def load_known(prop):
@@ -190,10 +193,10 @@ class Check:
                     viol.append(v)
         missing_vac = [k for k in self.expected_vacuity if not vac.get(k)]
         wall = time.time() - self.t0
-        os.makedirs(os.path.join(VERIF, "evidence"), exist_ok=True)
+        os.makedirs(os.path.join(OUT, "evidence"), exist_ok=True)
         replay_path = None
         if viol:
-            d = os.path.join(VERIF, "replays", self.prop)
+            d = os.path.join(OUT, "replays", self.prop)
             os.makedirs(d, exist_ok=True)
             blob = json.dumps(viol[0], sort_keys=True, default=str)
             replay_path = os.path.join(d, hashlib.sha256(blob.encode()).hexdigest()[:12] + ".json")
@@ -234,7 +237,7 @@ class Check:
             "wall_s": round(wall, 3),
             "violations": len(viol),
         }
-        with open(os.path.join(VERIF, "evidence", f"{self.prop}.json"), "w") as f:
+        with open(os.path.join(OUT, "evidence", f"{self.prop}.json"), "w") as f:
             json.dump(ev, f, indent=1, default=str)
         for k, v in sorted(known_hits.items()):
             print(f"KNOWN-FINDING: property={self.prop} {k}: {self.known[k].get('what', '')} (witness input {v.get('input')!r})")
